@@ -469,6 +469,15 @@ static int _GD_UpdateAffixes(DIRFILE *D, int index, char *nsin, size_t nsl,
   }
   F->modified = 1;
 
+  /* The names have changed: invalidate every cached field list (they point
+   * at the old name strings) */
+  for (u = 0; u < D->n_entries; ++u) {
+    D->entry[u]->e->fl.value_list_validity = 0;
+    D->entry[u]->e->fl.entry_list_validity = 0;
+  }
+  D->fl.value_list_validity = 0;
+  D->fl.entry_list_validity = 0;
+
   GD_RETURN_ERROR(D);
 }
 
